@@ -218,6 +218,137 @@ theorem obs2_line_record (cells : List Str) (hlen : cells.length = 15)
   rw [zip_snd _ _ (by omega)] at h
   exact h
 
+/-! ### RINEX 3: all per-record columns keep equal length -/
+
+section Aligned
+open Midgard.Rinex3Obs
+
+/-- every column of the three groups, and the row-level columns, have `n` entries -/
+def ObsAligned (d : Data) (n : Nat) : Prop :=
+  (∀ kn ∈ lensOf d.obs, kn.2 = n) ∧ (∀ kn ∈ lensOf d.lli, kn.2 = n) ∧ (∀ kn ∈ lensOf d.snr, kn.2 = n) ∧
+  d.time.length = n ∧ d.epochFlag.length = n ∧ d.clk.length = n ∧ d.station.length = n ∧ d.system.length = n ∧
+  d.satellite.length = n ∧ d.satnum.length = n
+
+theorem bind_ok {α β} {x : Except Err α} {f : α → Except Err β} {b : β} (h : (x >>= f) = .ok b) :
+    ∃ a, x = .ok a ∧ f a = .ok b := by
+  cases x with
+  | error e => simp [bind, Except.bind] at h
+  | ok a => exact ⟨a, rfl, h⟩
+
+theorem mapM_fst {α β} (f : α → Except Err β) (pa : α → Str) (pb : β → Str)
+    (hf : ∀ a b, f a = .ok b → pb b = pa a) :
+    ∀ (l : List α) (r : List β), l.mapM f = .ok r → r.map pb = l.map pa := by
+  intro l
+  induction l with
+  | nil => intro r h; simp [List.mapM_nil, pure, Except.pure] at h; subst h; rfl
+  | cons a rest ih =>
+    intro r h
+    rw [List.mapM_cons] at h
+    obtain ⟨b, hb, h2⟩ := bind_ok h
+    obtain ⟨rs, hrs, h3⟩ := bind_ok h2
+    simp [pure, Except.pure] at h3
+    subst h3
+    simp [hf a b hb, ih rs hrs]
+
+theorem zip_fst_of_length {α β} : ∀ (as : List α) (bs : List β), as.length = bs.length → (as.zip bs).map (·.1) = as
+  | [], [], _ => rfl
+  | a :: as, b :: bs, h => by simp [zip_fst_of_length as bs (by simpa using h)]
+  | [], _ :: _, h => by simp at h
+  | _ :: _, [], h => by simp at h
+
+theorem obsTriples_length (n : Nat) (obs : Str) : (obsTriples n obs).length = n := by
+  simp [obsTriples]
+
+/-- **Equal column lengths.**  If before an observation record of a kept epoch every column has `n`
+entries, the columns are keyed by the file's observation types, and the system's type list is a
+duplicate-free part of them, then after the record every column — the system's types *and* the types
+not defined for that system, and the row-level columns — has `n + 1` entries. -/
+theorem obs_columns_aligned (s s' : State) (v : Values) (e : EpochInfo) (q : Rat) (n : Nat)
+    (he : s.cache.epoch = some e) (hq : e.obsSec = some q)
+    (hal : ObsAligned s.data n)
+    (hkeys : (∀ kn ∈ lensOf s.data.obs, kn.1 ∈ s.obstypesAll) ∧ (∀ kn ∈ lensOf s.data.lli, kn.1 ∈ s.obstypesAll) ∧
+             (∀ kn ∈ lensOf s.data.snr, kn.1 ∈ s.obstypesAll))
+    (hnd : s.obstypesAll.Nodup)
+    (htypes : ∀ sy types, s.metaD.get [key "obstypes", sy] = some (.list types) →
+      types.Nodup ∧ ∀ t ∈ types, t ∈ s.obstypesAll)
+    (h : parseObservation v s = .ok s') : ObsAligned s'.data (n + 1) := by
+  unfold parseObservation at h
+  simp only [he, req] at h
+  obtain ⟨e', he', h⟩ := bind_ok h
+  simp [pure, Except.pure] at he'
+  subst he'
+  simp only [hq] at h
+  obtain ⟨sat, _, h⟩ := bind_ok h
+  obtain ⟨obs, _, h⟩ := bind_ok h
+  obtain ⟨sy, _, h⟩ := bind_ok h
+  split at h
+  case h_2 =>
+    obtain ⟨_, habs, _⟩ := bind_ok h
+    simp [throw, throwThe, MonadExcept.throw, MonadExceptOf.throw] at habs
+  rename_i types hget
+  obtain ⟨types', htp, h⟩ := bind_ok h
+  simp [pure, Except.pure] at htp
+  subst htp
+  obtain ⟨vals, hvals, h⟩ := bind_ok h
+  obtain ⟨d1, hd1, h⟩ := bind_ok h
+  obtain ⟨d2, hd2, h⟩ := bind_ok h
+  split at h
+  case h_2 =>
+    obtain ⟨_, habs, _⟩ := bind_ok h
+    simp [throw, throwThe, MonadExcept.throw, MonadExceptOf.throw] at habs
+  obtain ⟨station, _, h⟩ := bind_ok h
+  simp [pure, Except.pure] at h
+  subst h
+  obtain ⟨hndt, hsub⟩ := htypes sy types hget
+  -- names appended to: the system's types, then the rest
+  have hnames : vals.map (·.1) = types := by
+    have := mapM_fst _ (fun (tf : Str × Str × Str × Str) => tf.1) (fun (x : Str × Option Rat × Option Rat × Option Rat) => x.1)
+      (by
+        intro a b hab
+        obtain ⟨x1, _, hab⟩ := bind_ok hab
+        obtain ⟨x2, _, hab⟩ := bind_ok hab
+        obtain ⟨x3, _, hab⟩ := bind_ok hab
+        simp [pure, Except.pure] at hab
+        rw [← hab]) _ _ hvals
+    rw [this, zip_fst_of_length _ _ (by rw [obsTriples_length])]
+  obtain ⟨g1, g2, g3, g4⟩ := appendAll_lens _ _ _ hd1
+  obtain ⟨k1, k2, k3, k4⟩ := appendAll_lens _ _ _ hd2
+  obtain ⟨a1, a2, a3, a4, a5, a6, a7, a8, a9, a10⟩ := hal
+  have hcount : ∀ a ∈ s.obstypesAll,
+      (vals.map (·.1) ++ (List.map (fun t => (t, (none : Option Rat), (none : Option Rat), (none : Option Rat)))
+        (s.obstypesAll.filter fun t => !types.contains t)).map (·.1)).count a = 1 := by
+    intro a ha
+    rw [hnames, List.map_map]
+    have : (List.map ((fun (x : Str × Option Rat × Option Rat × Option Rat) => x.1) ∘ fun t => (t, none, none, none))
+        (s.obstypesAll.filter fun t => !types.contains t)) = s.obstypesAll.filter fun t => !types.contains t := by
+      simp [Function.comp_def]
+    rw [this]
+    exact count_types_unused hnd hndt hsub a ha
+  have final : ∀ (l l1 l2 : List (Str × Nat)), (∀ kn ∈ l, kn.2 = n) → (∀ kn ∈ l, kn.1 ∈ s.obstypesAll) →
+      l1 = l.map (grown (vals.map (·.1))) →
+      l2 = l1.map (grown ((List.map (fun t => (t, (none : Option Rat), (none : Option Rat), (none : Option Rat)))
+        (s.obstypesAll.filter fun t => !types.contains t)).map (·.1))) →
+      ∀ kn ∈ l2, kn.2 = n + 1 := by
+    intro l l1 l2 hn hk e1 e2
+    subst e1; subst e2
+    rw [List.map_map]
+    have : (grown ((List.map (fun t => (t, (none : Option Rat), (none : Option Rat), (none : Option Rat)))
+        (s.obstypesAll.filter fun t => !types.contains t)).map (·.1)) ∘ grown (vals.map (·.1))) =
+        grown (vals.map (·.1) ++ (List.map (fun t => (t, (none : Option Rat), (none : Option Rat), (none : Option Rat)))
+        (s.obstypesAll.filter fun t => !types.contains t)).map (·.1)) := by
+      funext kn; simp [grown_grown]
+    rw [this]
+    exact grown_all hn (fun kn hkn => hcount kn.1 (hk kn hkn))
+  refine ⟨final _ _ _ a1 hkeys.1 g1 k1, final _ _ _ a2 hkeys.2.1 g2 k2, final _ _ _ a3 hkeys.2.2 g3 k3, ?_⟩
+  have r1 := appendAll_rows _ _ _ hd1
+  have r2 := appendAll_rows _ _ _ hd2
+  simp only [rowCols, Prod.mk.injEq] at r1 r2
+  obtain ⟨p1, p2, p3, p4, p5, p6, p7⟩ := r1
+  obtain ⟨q1, q2, q3, q4, q5, q6, q7⟩ := r2
+  simp [Data.appendRow, q1, q2, q3, q4, q5, q6, q7, p1, p2, p3, p4, p5, p6, p7, a4, a5, a6, a7, a8, a9, a10]
+
+end Aligned
+
 /-! ### Sampling rate -/
 
 /-- epochs and rates printed in units of 10⁻⁷ s: the epoch is kept exactly when it is on the grid -/
@@ -351,3 +482,8 @@ end Midgard.Props.C11
 #print axioms Midgard.Props.C11.sampling
 #print axioms Midgard.Props.C11.decimated_epoch_adds_nothing3
 #print axioms Midgard.Props.C11.decimated_epoch_adds_nothing2
+#print axioms Midgard.Props.C11.bind_ok
+#print axioms Midgard.Props.C11.mapM_fst
+#print axioms Midgard.Props.C11.zip_fst_of_length
+#print axioms Midgard.Props.C11.obsTriples_length
+#print axioms Midgard.Props.C11.obs_columns_aligned
